@@ -42,6 +42,7 @@ type item struct {
 	class   string
 	release string // now | reads:<k> | end
 	byXid   bool   // no room for the nonce option: the transaction id carries the nonce (high bit set)
+	dup     bool   // byte-identical copy of the previous datagram (same nonce: counted per copy)
 }
 
 type hrec struct {
@@ -129,7 +130,10 @@ func genItems(rng *rand.Rand, v6 bool) []item {
 		mode, n = "flood", 150+rng.IntN(250)
 	case 1:
 		mode, n = "hold", 130+rng.IntN(120)
+	case 2: // a long run of one kind of undecodable datagram (hundreds of empty reads in a row, of truncated ones ...)
+		mode, n = "run", 130+rng.IntN(300)
 	}
+	runKind := 6 + rng.IntN(4)
 	var items []item
 	var lastXid6 *dhcpv6.TransactionID
 	var lastXid4 *dhcpv4.TransactionID
@@ -144,6 +148,17 @@ func genItems(rng *rand.Rand, v6 bool) []item {
 			kind = 6 + rng.IntN(4)
 		case mode == "hold":
 			kind, it.release = 0, "end"
+		case mode == "run" && i < n-10:
+			kind = runKind
+		}
+		// an exact copy of the previous datagram (same bytes, same sender: a retransmission on the wire is exactly that)
+		if len(items) > 0 && mode != "hold" && rng.IntN(12) == 0 {
+			prev := items[len(items)-1]
+			cp := prev
+			cp.release = releasePlan(rng)
+			cp.dup = true
+			items = append(items, cp)
+			continue
 		}
 		if v6 {
 			switch {
@@ -330,7 +345,10 @@ func runCase(r *mon.Rec, famName string, idx int) {
 			}
 		}
 	}
-	enter := func(nonce int, peer net.Addr, snap func() string, enc func() []byte) {
+	enter := func(nonce int, peer net.Addr, snap func() string, enc func() []byte, scribble func()) {
+		// the message is the handler's own: before it returns it writes into it (a handler that builds its reply in
+		// place).  If two handlers were given one message, the other one sees that at entry or while it holds it.
+		defer scribble()
 		h := &hrec{nonce: nonce, entry: snap(), encIn: string(enc())}
 		if peer != nil {
 			h.peer = peer.String()
@@ -396,7 +414,16 @@ func runCase(r *mon.Rec, famName string, idx int) {
 			} else if o := m.GetOneOption(65001); o != nil && len(o.ToBytes()) == 4 {
 				nonce = int(binary.BigEndian.Uint32(o.ToBytes())) // a relay message that encapsulates nothing
 			}
-			enter(nonce, peer, func() string { return proj.M6(m).String() }, m.ToBytes)
+			enter(nonce, peer, func() string { return proj.M6(m).String() }, m.ToBytes, func() {
+				switch x := m.(type) {
+				case *dhcpv6.Message:
+					x.MessageType = 0xee
+					x.TransactionID[0] ^= 0xff
+				case *dhcpv6.RelayMessage:
+					x.HopCount ^= 0xff
+					x.MessageType = 0xee
+				}
+			})
 		}, append([]server6.ServerOpt{server6.WithConn(conn)}, logOpts6(logCfg)...)...)
 		restoreErr()
 		if err != nil {
@@ -421,7 +448,11 @@ func runCase(r *mon.Rec, famName string, idx int) {
 			enter(nonce, peer, func() string {
 				e, _ := proj.P4(m)
 				return e.Canon()
-			}, m.ToBytes)
+			}, m.ToBytes, func() {
+				m.OpCode = 0xee
+				m.HopCount ^= 0xff
+				m.Options.Update(dhcpv4.OptGeneric(dhcpv4.GenericOptionCode(231), []byte{0xee}))
+			})
 		}, append([]server4.ServerOpt{server4.WithConn(conn)}, logOpts4(logCfg)...)...)
 		restoreErr()
 		if err != nil {
@@ -509,11 +540,13 @@ func runCase(r *mon.Rec, famName string, idx int) {
 	}
 	// handlers of datagrams read before the stop are started by now or will be shortly: wait until the expected number entered
 	expect := map[int]*item{}
+	copies := map[int]int{}
 	nvalid := 0
 	for i := 0; i < fed; i++ {
 		if items[i].valid {
 			nvalid++
 			expect[items[i].nonce] = &items[i]
+			copies[items[i].nonce]++
 		}
 	}
 	for dl := time.Now().Add(10 * time.Second); ; {
@@ -574,14 +607,14 @@ func runCase(r *mon.Rec, famName string, idx int) {
 		}
 	}
 	for nonce, it := range expect {
-		if seen[nonce] != 1 {
+		if seen[nonce] != copies[nonce] {
 			prev := "first"
 			for i := range items {
 				if items[i].nonce == nonce && i > 0 {
 					prev = items[i-1].class
 				}
 			}
-			bad("dispatch-count", "decodable datagram %d (class %s, preceded by a %s datagram) was dispatched %d times, want exactly once (%d of %d datagrams fed, stop by %s)", nonce, it.class, prev, seen[nonce], fed, len(items), stopKind)
+			bad("dispatch-count", "decodable datagram %d (class %s, preceded by a %s datagram) was dispatched %d times, want exactly once per copy read (%d copies; %d of %d datagrams fed, stop by %s)", nonce, it.class, prev, seen[nonce], copies[nonce], fed, len(items), stopKind)
 			return
 		}
 	}
